@@ -60,7 +60,8 @@ def toy_case(rng, tier):
     return Case("toy-life", lines, None, {"mode": "toy", "loads": nloads})
 
 
-RV_OK = [".data\nv: .word 1, 2\n.text\nlw x1, v\nsw x1, v[1], x2", "addi x1, x0, 5\naddi x2, x1, 1", ".data\ns: .string \"hi\"\n.text\nli a7, 4\nla a0, s\necall"]
+RV_OK = ["li a7, 93\nli a0, 7\necall\naddi x1, x0, 1\naddi x2, x0, 2", "li a7, 10\necall\nsub: addi x1, x0, 1\njalr x0, x1, 0",     # exit with code after it
+         ".data\nv: .word 1, 2\n.text\nlw x1, v\nsw x1, v[1], x2", "addi x1, x0, 5\naddi x2, x1, 1", ".data\ns: .string \"hi\"\n.text\nli a7, 4\nla a0, s\necall"]
 RV_BAD = [".data\nw: .word 9, 8, 7\n.text\nnop\nj_bad", ".data\nv: .byte 300\n.text\nla x1, q", "a:\na:\nnop", "addi x1, x0, 01"]
 TOY_OK = [".data\nv: .word 1,2,3\n.text\nLDA v\nADD v\nSTO 4000", "INC\nDEC\nNOT", "loop: DEC\nBRZ end\nZRO\nBRZ loop\nend: STO x\n.data\nx: .word 3"]
 TOY_BAD = [".data\nq: .word 7, 7\n.text\nLDA y", "ADD 0x", "a:\na:\nINC", "INC\nx: .word 1"]
@@ -101,7 +102,9 @@ def reload_patterns(rng, tier):
                     lines = [f"sim.new {kind} 1 {d} -", "sim.snap"]
                     for t in texts:
                         lines += [f"sim.load {rvasmgen.hx(t)}", "sim.snap"]
-                    lines += ["sim.step", "sim.done", "sim.snap", "sim.run 300", "sim.done", "sim.snap", "sim.step", "sim.snap"]
+                    for _ in range(12):
+                        lines += ["sim.step", "sim.done", "sim.snap"]
+                    lines += ["sim.run 300", "sim.done", "sim.snap", "sim.step", "sim.snap"]
                 yield Case("reload-patterns", lines, None, {"mode": kind, "loads": len(texts)})
         for earlier, last in (TOY_SHARED if kind == "toy" else RV_SHARED):
             texts = list(earlier) + [last]
